@@ -35,7 +35,11 @@ def showYield : Yield Bytes → String
 def envRecvOp (args : List String) : String :=
   match kv args "comp", (kv args "max").bind String.toNat?, (kv args "tail").bind parseTail, (kv args "flat").bind hexArg with
   | some comp, some max, some tail, some flat =>
-    let cfg : ReaderCfg Bytes := { codec := rawCodec, pool := if comp == "1" then some rleCompressor else none, max := max }
+    -- strict=1: a codec that, like JSON, has no encoding of any value in zero bytes
+    let codec : Codec Bytes := if kv args "strict" == some "1" then
+        { rawCodec with unmarshal := fun d => if d.isEmpty then none else rawCodec.unmarshal d }
+      else rawCodec
+    let cfg : ReaderCfg Bytes := { codec := codec, pool := if comp == "1" then some rleCompressor else none, max := max }
     let fuel := flat.length / 5 + 2
     let r := ((recvAll cfg fuel).run takeExact { flat := flat, tail := tail }).1
     " ".intercalate (r.1.map showYield)
@@ -156,6 +160,37 @@ def recoverOp (args : List String) : String :=
       | .panic (.other _) => "panic-other"
     s!"calls=[{calls}] outcome={out}"
   | _ => "bad-op"
+
+def chainOp (args : List String) : String :=
+  -- rchain kind=.. proto=.. body=<none|fail|nil|abort|other> <layer>... (outermost first)
+  let pval (s : String) : PanicVal := match s with
+    | "nil" => .nil | "abort" => .abort | _ => .other 1
+  let body : Option (Outcome Nat) := args.findSome? fun t =>
+    if t.startsWith "body=" then
+      some (match (t.drop 5).toString with
+        | "none" => .ret 0 | "fail" => .ret 8 | v => .panic (pval v))
+    else none
+  -- frames are numbered 1.. outermost first
+  let step (acc : List Layer × Nat) (t : String) : List Layer × Nat :=
+    if t == "p" then (acc.1 ++ [.pass], acc.2)
+    else if t == "r" then (acc.1 ++ [.recover (acc.2 + 1)], acc.2 + 1)
+    else if t.startsWith "b:" then (acc.1 ++ [.panicBefore (pval (t.drop 2).toString)], acc.2)
+    else if t.startsWith "a:" then (acc.1 ++ [.panicAfter (pval (t.drop 2).toString)], acc.2)
+    else acc
+  let layers := (args.foldl step ([], 0)).1
+  match body with
+  | none => "bad-op"
+  | some b =>
+    let r := runChain (fun id _ => 90 + id) layers b
+    let pv (v : PanicVal) : String := match v with
+      | .nil => "nil" | .abort => "abort" | .other _ => "other"
+    let calls := " ".intercalate (r.2.map fun c => s!"{c.1}:{pv c.2}")
+    let out := match r.1 with
+      | .ret 0 => "returned"
+      | .ret 8 => "error:resource_exhausted"
+      | .ret n => s!"recovered:{n - 90}"
+      | .panic v => s!"panic-{pv v}"
+    s!"calls=[{calls}] outcome={out}"
 
 def parseKind (s : String) : StreamKind :=
   match s with
@@ -488,6 +523,7 @@ def step (line : String) : String :=
   | "gen" :: args => genOp args
   | "icpt" :: args => icptOp args
   | "recover" :: args => recoverOp args
+  | "rchain" :: args => chainOp args
   | ["canary"] => "canary-model"
   | _ => "bad-op"
 
